@@ -14,6 +14,7 @@ import (
 	"crypto/x509/pkix"
 	"hash"
 	"math/big"
+	"strings"
 	"testing"
 	"time"
 
@@ -34,7 +35,7 @@ import (
 // simulated clock of the bubble.
 
 type c13Fault struct {
-	Kind string `json:"kind"` // none | flip | trunc | append | substitute | wrong_issuer | rogue_responder | strip_cert
+	Kind string `json:"kind"` // none | flip | set | grow | growprim | dup | drop | tail_inner | trunc | append | substitute | wrong_issuer | rogue_responder | strip_cert
 	Off  int    `json:"off"`
 	Bit  int    `json:"bit"`
 	N    int    `json:"n"`
@@ -58,6 +59,7 @@ type c13Scenario struct {
 	MultiPos   int      `json:"multi_pos"`
 	Staple     bool     `json:"staple"`    // relay = zcrypto TLS server stapling the response
 	ClockOffS  int      `json:"clock_off_s"`
+	SigAlg     string   `json:"sig_alg,omitempty"` // template.SignatureAlgorithm: "" (default for the key) | sha1 | sha256 | sha384 | sha512
 	Fault      c13Fault `json:"fault"`
 }
 
@@ -86,7 +88,8 @@ func genC13(seed uint64, tier string) any {
 	}
 	sc.Staple = sc.Multi == 0 && r.Chance(1, 8)
 	if r.Chance(3, 5) && sc.Multi == 0 {
-		kinds := []string{"flip", "flip", "flip", "flip", "trunc", "append", "substitute", "wrong_issuer", "rogue_responder", "strip_cert"}
+		kinds := []string{"flip", "flip", "flip", "flip", "trunc", "append", "substitute", "wrong_issuer", "rogue_responder", "strip_cert",
+			"set", "set", "set", "grow", "growprim", "dup", "drop", "tail_inner"}
 		sc.Fault = c13Fault{Kind: kinds[r.Intn(len(kinds))], Off: r.Intn(1 << 20), Bit: r.Intn(8), N: 1 + r.Intn(40)}
 		if sc.Fault.Kind == "strip_cert" && !sc.Delegated {
 			sc.Delegated = true
@@ -96,7 +99,73 @@ func genC13(seed uint64, tier string) any {
 	} else {
 		sc.Fault.Kind = "none"
 	}
+	if r.Chance(1, 3) {
+		sc.SigAlg = []string{"sha1", "sha256", "sha384", "sha512"}[r.Intn(4)]
+	}
 	return sc
+}
+
+// c13SigAlg maps the scenario's signature hash to the x509.SignatureAlgorithm for the signer's key type.
+func c13SigAlg(name string, signer crypto.Signer) zx509.SignatureAlgorithm {
+	_, ec := signer.Public().(*ecdsa.PublicKey)
+	switch name {
+	case "sha1":
+		if ec {
+			return zx509.ECDSAWithSHA1
+		}
+		return zx509.SHA1WithRSA
+	case "sha256":
+		if ec {
+			return zx509.ECDSAWithSHA256
+		}
+		return zx509.SHA256WithRSA
+	case "sha384":
+		if ec {
+			return zx509.ECDSAWithSHA384
+		}
+		return zx509.SHA384WithRSA
+	case "sha512":
+		if ec {
+			return zx509.ECDSAWithSHA512
+		}
+		return zx509.SHA512WithRSA
+	}
+	return 0
+}
+
+// The OCSP response layout (RFC 6960 4.2.1) as paths of the DER tree: the root SEQUENCE holds responseStatus
+// (.0) and the [0] EXPLICIT wrapper (.1) of ResponseBytes (.1.0) = {responseType (.1.0.0), response OCTET
+// STRING (.1.0.1)}; the OCTET STRING wraps (.w) BasicOCSPResponse = {tbsResponseData (.0), signatureAlgorithm
+// (.1), signature BIT STRING (.2), [0] EXPLICIT certs (.3) -> SEQUENCE OF (.3.0) -> Certificate (.3.0.0) =
+// {tbsCertificate (.0), signatureAlgorithm (.1), signature (.2)}}.
+const (
+	c13Basic    = ".1.0.1.w"
+	c13TBS      = c13Basic + ".0"
+	c13SigOID   = c13Basic + ".1.0"
+	c13Sig      = c13Basic + ".2"
+	c13Cert     = c13Basic + ".3.0.0"
+	c13CertTBS  = c13Cert + ".0"
+	c13CertSig  = c13Cert + ".2"
+	c13OctetStr = ".1.0.1"
+)
+
+func pathUnder(path, prefix string) bool {
+	return path == prefix || (len(path) > len(prefix) && path[:len(prefix)] == prefix && (path[len(prefix)] == '.' || path[len(prefix)] == ':'))
+}
+
+// c13MustReject says whether a tampering at the labelled place of a signed response has to be rejected:
+// everything inside the two signed structures, the octets of the two signature values (including the BIT
+// STRING's unused-bits octet) and the response's signature algorithm OID. Places outside (wrapper lengths,
+// AlgorithmIdentifier parameters, the certificate's outer signatureAlgorithm, additional elements in
+// extensible SEQUENCEs) are inert and tolerated.
+func c13MustReject(kind, label string) bool {
+	if pathUnder(label, c13TBS) || pathUnder(label, c13CertTBS) {
+		return true
+	}
+	if kind == "flip" || kind == "set" {
+		return label == c13Sig+":val" || label == c13CertSig+":val" || label == c13SigOID+":val"
+	}
+	return false
 }
 
 type c13PKI struct {
@@ -358,6 +427,10 @@ func c13Run(t *testing.T, sc *c13Scenario, p *c13PKI, o *Outcome) *Failure {
 		responderZ, signer, signerCert = p.responderZ[ik], ocspSignerKey("p256_9"), p.responder[ik]
 		tmpl.Certificate = responderZ
 	}
+	if sc.SigAlg != "" {
+		tmpl.SignatureAlgorithm = c13SigAlg(sc.SigAlg, signer)
+		o.count("probe.explicit_signature_algorithm", 1)
+	}
 	genuine := []genuineResp{}
 	var respDER []byte
 	if sc.Multi > 0 {
@@ -388,10 +461,65 @@ func c13Run(t *testing.T, sc *c13Scenario, p *c13PKI, o *Outcome) *Failure {
 	delivered := respDER
 	f := sc.Fault
 	signedBy := []*kit.Cert{signerCert} // keys under which an accepted response may verify
+	label := ""                          // place of a byte-level / structural tampering in the DER tree of the genuine response
+	expandOctet := func(path string) bool { return path == c13OctetStr }
+	var tree *derNode
+	var nodes []string
+	switch f.Kind {
+	case "flip", "set", "grow", "growprim", "dup", "drop", "tail_inner":
+		tr, _, perr := parseDER(respDER, 0, "", expandOctet)
+		if perr != nil || !bytes.Equal(tr.encode(), respDER) {
+			return Failf("c13.create", "CreateResponse did not produce DER", "%v", perr)
+		}
+		tree = tr
+		tree.walk("", func(path string, n *derNode) { nodes = append(nodes, path) })
+	}
 	switch f.Kind {
 	case "flip":
 		delivered = append([]byte(nil), respDER...)
 		delivered[f.Off%len(delivered)] ^= 1 << uint(f.Bit)
+		label = tree.labelAt(f.Off % len(delivered))
+	case "set":
+		delivered = append([]byte(nil), respDER...)
+		off := f.Off % len(delivered)
+		if f.N%3 == 0 {
+			// bias: the first value octet of one of the two signatures (the BIT STRING's unused-bits count)
+			if n := tree.find([]string{c13Sig, c13CertSig}[f.Bit%2]); n != nil {
+				off = n.HdrEnd
+			}
+		}
+		v := byte(f.N)
+		if f.N%3 == 0 {
+			v = byte(1 + f.N%7)
+		}
+		if v == delivered[off] {
+			v ^= 0x01
+		}
+		delivered[off] = v
+		label = tree.labelAt(off)
+	case "grow", "growprim", "dup", "drop":
+		path := nodes[f.Off%len(nodes)]
+		n := tree.find(path)
+		label = path + ":" + f.Kind
+		switch {
+		case f.Kind == "grow" && (n.constructed() || n.Wrapped != nil) && path != c13OctetStr:
+			n.Content = []byte{0x05, 0x00}
+		case f.Kind == "growprim" && !n.constructed() && n.Wrapped == nil:
+			n.Content = append(n.Content, byte(f.N))
+		case f.Kind == "dup" && len(n.Children) > 0:
+			n.Children = append(n.Children, n.Children[len(n.Children)-1])
+		case f.Kind == "drop" && len(n.Children) > 0:
+			n.Children = n.Children[:len(n.Children)-1]
+		default:
+			// not applicable to this node: fall back to junk after the encapsulated BasicOCSPResponse
+			tree.find(c13OctetStr).Content = kit.NewRng(uint64(f.Off)).Bytes(f.N)
+			label = c13OctetStr + ":tail_inner"
+		}
+		delivered = tree.encode()
+	case "tail_inner":
+		tree.find(c13OctetStr).Content = kit.NewRng(uint64(f.Off)).Bytes(f.N)
+		label = c13OctetStr + ":tail_inner"
+		delivered = tree.encode()
 	case "trunc":
 		delivered = respDER[:f.Off%len(respDER)]
 	case "append":
@@ -450,6 +578,21 @@ func c13Run(t *testing.T, sc *c13Scenario, p *c13PKI, o *Outcome) *Failure {
 	}
 	if f.Kind != "none" {
 		o.count("probe.tampered_accepted", 1)
+	}
+	if label != "" {
+		// "any tampering of a signed response is rejected": signed structures, signature values, the signature
+		// algorithm and bytes behind the end of the (outer or encapsulated) response
+		kind := f.Kind
+		if strings.HasSuffix(label, ":tail_inner") {
+			kind = "tail_inner"
+		}
+		if c13MustReject(kind, label) || kind == "tail_inner" {
+			return Failf("c13.tamper_accepted", "a tampered signed response is accepted ("+kind+" at "+c13Place(label)+")", "fault %+v label %s delegated=%v key=%s", f, label, sc.Delegated, ik)
+		}
+		o.count("probe.inert_tamper_accepted", 1)
+	}
+	if f.Kind == "append" {
+		return Failf("c13.tamper_accepted", "bytes appended after the response are accepted", "fault %+v", f)
 	}
 	// (i) authenticity, checked with the standard library
 	if sc.WithIssuer {
@@ -535,6 +678,29 @@ func c13Staple(sc *c13Scenario, staple []byte) []byte {
 }
 
 var _ = tls.VersionTLS12
+
+// c13Place names the region of a DER label for violation signatures (stable across offsets inside a region).
+func c13Place(label string) string {
+	path := label
+	if i := strings.LastIndex(label, ":"); i >= 0 {
+		path = label[:i]
+	}
+	switch {
+	case strings.HasSuffix(label, ":tail_inner"):
+		return "after the encapsulated BasicOCSPResponse"
+	case pathUnder(path, c13TBS):
+		return "tbsResponseData"
+	case pathUnder(path, c13CertTBS):
+		return "embedded tbsCertificate"
+	case pathUnder(path, c13Sig):
+		return "response signature"
+	case pathUnder(path, c13CertSig):
+		return "embedded certificate signature"
+	case pathUnder(path, c13SigOID):
+		return "response signature algorithm"
+	}
+	return "unsigned wrapper " + path
+}
 
 func stdParse(der []byte) (*stdx509.Certificate, error) { return stdx509.ParseCertificate(der) }
 
